@@ -107,6 +107,16 @@ pub fn minimise(w: &Workload, fail: &Fail, refs: &Refs, data: &DataFiles) -> (Wo
             }
         }
     }
+    // 0b. shared values nobody uses
+    let used = best.threads.iter().flatten().any(|o| matches!(o, Op::Shared { .. } | Op::SharedIter { .. }));
+    if !used && !best.prebuilt.is_empty() {
+        let mut c = best.clone();
+        c.prebuilt.clear();
+        if let Some((c2, f)) = reproduces(&c, &class, refs, data, &mut budget) {
+            best = c2;
+            best_fail = f;
+        }
+    }
     // 1. whole threads
     let mut i = 0;
     while best.threads.len() > 1 && i < best.threads.len() && budget > 0 {
@@ -149,7 +159,7 @@ pub fn minimise(w: &Workload, fail: &Fail, refs: &Refs, data: &DataFiles) -> (Wo
             }
         }
     }
-    // 3. unused prebuilt values
+    // 3. shared values nobody uses any more
     let used = best.threads.iter().flatten().any(|o| matches!(o, Op::Shared { .. } | Op::SharedIter { .. }));
     if !used && !best.prebuilt.is_empty() {
         let mut c = best.clone();
